@@ -1,5 +1,5 @@
 (* C11 -- Geometric operations are rigid motions with the documented effect.
-   Property theorems only (each is `exact <lemma>` from Proofs/Rot.v or Proofs/RotMotion.v), over the real
+   Property theorems only (each is `exact <lemma>` from Proofs/Rot.v, Proofs/RotMotion.v or Proofs/RotEns.v), over the real
    numbers, for the SAME Gallina definitions (Model/Rot.v, parametric in the field operations) that the
    correspondence shards execute over Q against the implementation.
 
@@ -8,11 +8,10 @@
    - np.random inside the antiparallel branch: the theorems hold for EVERY unit vector orthogonal to v2, the
      choice itself is hidden state (determinism is C12's business);
    - the user-supplied alignment callback (Kabsch/SVD) is described by hypotheses (its contract), not verified;
-     the ensemble variant of align_to_ref_coords is tied by correspondence only (same model, conformer-wise);
    - arctan2 itself: "the dihedral is t" is stated as "(arg1, arg2) = rho (sin t, cos t) with rho > 0";
    - which atoms yield_bfs selects (graph search: C15) -- `sel` is a parameter, constrained by hypotheses. *)
 From Coq Require Import Reals Lra List ZArith Lia.
-From Molli Require Import Common.Field3 Common.Field3R Model.Rot Proofs.Rot Proofs.RotMotion.
+From Molli Require Import Common.Field3 Common.Field3R Model.Rot Model.RotEns Proofs.Rot Proofs.RotMotion Proofs.RotEns.
 Import ListNotations.
 Local Open Scope R_scope.
 
@@ -144,6 +143,37 @@ Proof.
 Qed.
 Print Assumptions C11_ensemble_ops_rigid.
 
+(* Per-conformer stacks, for ensembles of EVERY shape: an (n_conformers, 3) array moves conformer k by its row k and
+   an (n_conformers, 3, 3) stack turns conformer k by its matrix k.  There is no hypothesis on the number of atoms:
+   the laws hold in particular when n_conformers = n_atoms (or 3, or 1), where array shapes coincide. *)
+Theorem C11_ens_per_conformer (E : list (list vecR)) :
+  (forall vs k, length vs = length E -> (k < length E)%nat ->
+     nth k (ens_translate2 ROps vs E) [] = translate ROps (nth k vs (vzero ROps)) (nth k E [])) /\
+  (forall Ms k, length Ms = length E -> (k < length E)%nat ->
+     nth k (ens_rotate_each ROps Ms E) [] = transform ROps (nth k Ms (eye ROps)) (nth k E [])) /\
+  (forall Ms, length Ms = length E -> Forall proper Ms -> Forall2 same_shape E (ens_rotate_each ROps Ms E)).
+Proof.
+  exact (conj (fun vs k => ens_translate2_nth vs E k)
+        (conj (fun Ms k => ens_rotate_each_nth Ms E k) (fun Ms => ens_rotate_each_shape Ms E))).
+Qed.
+Print Assumptions C11_ens_per_conformer.
+
+(* ... and the other reading of such an array (row j added to atom j of every conformer), which array shapes allow
+   exactly when n_conformers = n_atoms, is NOT a rigid motion: witness with n_conformers = n_atoms = 2 *)
+Theorem C11_per_atom_displacement_not_rigid :
+  let E := [[(0, 0, 0); (1, 0, 0)]; [(0, 0, 0); (0, 1, 0)]] : list (list vecR) in
+  let vs := [(0, 0, 0); (1, 0, 0)] : list vecR in
+  length vs = length E /\ Forall (fun X : list vecR => length X = length E) E /\
+  Forall2 same_shape E (ens_translate2 ROps vs E) /\
+  ~ Forall2 same_shape E (ens_displace_atoms ROps vs E).
+Proof. exact displace_atoms_not_rigid. Qed.
+Print Assumptions C11_per_atom_displacement_not_rigid.
+
+(* scale(f) is a similarity of every conformer: distances times |f|, signed volumes times f^3 *)
+Theorem C11_ens_scale_similarity (f : R) (E : list (list vecR)) : Forall2 (scaled_shape f) E (ens_scale ROps f E).
+Proof. exact (ens_scale_shape f E). Qed.
+Print Assumptions C11_ens_scale_similarity.
+
 Theorem C11_center_at_atom_origin (k : nat) (E : list (list vecR)) (X' : list vecR) :
   In X' (center_at_atom ROps k E) -> (k < length X')%nat -> pt X' k = vzero ROps.
 Proof. exact (center_at_atom_origin k E X'). Qed.
@@ -184,6 +214,40 @@ Theorem C11_align_pose_independent (func : list vecR -> list vecR -> matR * R) :
   = option_map snd (align ROps func X idxs ref v).
 Proof. exact (align_pose_independent func). Qed.
 Print Assumptions C11_align_pose_independent.
+
+(* ConformerEnsemble.align_to_ref_coords as the code performs it (centre all conformers, pick the best callback result
+   per conformer, rotate by the (n_conformers, 3, 3) stack, shift all) IS Molecule.align_to_ref_coords carried out on
+   every conformer -- for every number of conformers and atoms ... *)
+Theorem C11_ens_align_conformerwise (func : list vecR -> list vecR -> matR * R)
+        (E : list (list vecR)) (idxs : list (list nat)) (ref : list vecR) (v : option vecR)
+        (E' : list (list vecR)) (rs : list R) :
+  ens_align ROps func E idxs ref v = Some (E', rs) ->
+  length E' = length E /\ length rs = length E /\
+  forall k, (k < length E)%nat -> align ROps func (nth k E []) idxs ref v = Some (nth k E' [], nth k rs 0).
+Proof. exact (ens_align_conformerwise func E idxs ref v E' rs). Qed.
+Print Assumptions C11_ens_align_conformerwise.
+
+(* ... hence, under the callback contract, every conformer is moved rigidly and the k-th returned value is the
+   deviation of the pose conformer k is left in *)
+Theorem C11_ens_align_reports
+  (dev : list vecR -> list vecR -> R) (func : list vecR -> list vecR -> matR * R) :
+  (forall P Q, proper (fst (func P Q))) ->
+  (forall P Q, snd (func P Q) = dev (transform ROps (fst (func P Q)) P) Q) ->
+  forall (E : list (list vecR)) (idxs : list (list nat)) (ref : list vecR) (v : option vecR)
+         (E' : list (list vecR)) (rs : list R),
+  ens_align ROps func E idxs ref v = Some (E', rs) ->
+  length E' = length E /\ length rs = length E /\
+  forall k, (k < length E)%nat ->
+    exists idx Xr,
+      In idx idxs /\
+      nth k E' [] = match v with Some t => translate ROps t Xr | None => Xr end /\
+      nth k rs 0 = dev (select ROps idx Xr) ref /\
+      nth k rs 0 < 100 /\
+      (forall idx', In idx' idxs ->
+         nth k rs 0 <= snd (func (select ROps idx' (align_centered ROps (nth k E []) (hd [] idxs))) ref)) /\
+      same_shape (nth k E []) (nth k E' []).
+Proof. exact (ens_align_reports dev func). Qed.
+Print Assumptions C11_ens_align_reports.
 
 (* ---- the hypotheses are satisfiable by non-trivial data --------------------------------------------- *)
 Example C11_ex_rodrigues :
@@ -230,5 +294,24 @@ Proof.
   cbv zeta. split; [intros; apply eye_proper|]. split; [reflexivity|].
   unfold align, align_with, pick_best, fltb. simpl fold_left. cbv [fleb ROps fofZ]. simpl snd. simpl fst.
   assert (E : Rleb 100 0 = false) by (apply Rleb_false; lra). rewrite E. simpl negb. cbv iota.
+  eexists. eexists. reflexivity.
+Qed.
+
+(* an ensemble with n_conformers = n_atoms = 2: per-conformer stacks of the right length exist, and the ensemble
+   alignment succeeds under the same (satisfiable) callback contract *)
+Example C11_ex_ens_square :
+  let E := [[(0, 0, 0); (1, 0, 0)]; [(2, 0, 0); (2, 3, 0)]] : list (list vecR) in
+  let dev := fun (_ _ : list vecR) => 0 in
+  let func := fun (P Q : list vecR) => (eye ROps, dev (transform ROps (eye ROps) P) Q) in
+  Forall (fun X : list vecR => length X = length E) E /\
+  length [(1, 1, 1); (0, 0, 2)] = length E /\
+  length [eye ROps; eye ROps] = length E /\ Forall proper [eye ROps; eye ROps] /\
+  exists E' rs, ens_align ROps func E [[0%nat; 1%nat]] [(0, 0, 0); (0, 0, 0)] None = Some (E', rs).
+Proof.
+  cbv zeta. split; [repeat constructor|]. split; [reflexivity|]. split; [reflexivity|].
+  split; [repeat constructor; apply eye_proper|].
+  unfold ens_align, ens_align_steps, ens_align_inputs, pick_best, fltb. cbn [map fold_left snd fst align_inputs].
+  cbv [fleb ROps fofZ].
+  assert (E : Rleb 100 0 = false) by (apply Rleb_false; lra). rewrite E. cbn [negb all_some map snd fst].
   eexists. eexists. reflexivity.
 Qed.
